@@ -230,7 +230,7 @@ def _is_bool_like(value: Any) -> bool:
 
 
 def _is_int_like(value: Any) -> bool:
-    return isinstance(value, (IntExpr, int, IntArray1D, IntArray2D))
+    return isinstance(value, (IntExpr, int, IntArray1D, IntArray2D)) and not isinstance(value, bool)
 
 
 ElementwiseOperands = List[
